@@ -10,14 +10,14 @@
      is_ctl / neutralise   the five control characters ESC \b \x9b \001 \002 -> '?'
      esc1 / dat        html_escape per character / the character it delivers as data
    [cfg_now] is the code that is in /repo now (with the six 'fix:' commits
-   86103a9 baf43a1 afcdc3a 8fdddd4 74c3a15 7fe5e6f); the headline theorems are
+   86103a9 baf43a1 afcdc3a 8fdddd4 74c3a15 7fe5e6f ae5d17b); the headline theorems are
    about it.  [cfg_pinned] is the pinned snapshot: each `_pinned_refuted`
    theorem is the witness that the same statement was false there. *)
 From Coq Require Import ZArith List Bool.
 From PTK Require Import Lib.Sx Lib.Py Gen.C18_Tables Gen.Whitespace Model.C18_Fragments Model.C18_Ansi Model.C18_Html
   Model.C18_Convert Model.C18_AnsiGrammar Model.C18_Exploded Model.C18_Width Model.C18_Mod
   Proofs.C18_FragmentsFacts Proofs.C18_AnsiFacts Proofs.C18_HtmlFacts Proofs.C18_ConvertFacts Proofs.C18_AnsiStrip Proofs.C18_HtmlTemplate
-  Proofs.C18_ExplodedFacts Proofs.C18_WidthFacts Proofs.C18_ModFacts.
+  Proofs.C18_ExplodedFacts Proofs.C18_WidthFacts Proofs.C18_ModFacts Proofs.C18_HtmlPlain.
 Import ListNotations.
 Open Scope Z_scope.
 
@@ -66,14 +66,17 @@ Print Assumptions C18_apply_style_text.
 
 (* ---- _ExplodedList, fragment_list_width, PygmentsTokens ---------------- *)
 
-(* Item and slice assignment (any index, any slice), append and extend keep
-   every element of an exploded list a single character. *)
+(* Item assignment (any int index) and slice assignment (any lo:hi slice; slices
+   with a step are not modelled), append and extend keep every element of an
+   exploded list a single character. *)
 Theorem C18_exploded_invariant : forall l o,
   all_single l -> (forall vs, o <> EIadd vs) -> all_single (el_step l o).
 Proof. exact el_invariant. Qed.
 Print Assumptions C18_exploded_invariant.
 
-(* lst[i] = v replaces exactly item i for 0 <= i < len and for -len <= i < -1 ... *)
+(* lst[i] = v replaces exactly item i for 0 <= i < len and for -len <= i < -1
+   (for i >= len or i < -len the code appends / prepends instead of raising: no
+   theorem, mentioned in finding C18-F10) ... *)
 Theorem C18_exploded_setitem : forall l i v,
   0 <= i < len l ->
   setitem_int l i v = firstn (Z.to_nat i) l ++ explode [v] ++ skipn (Z.to_nat (i + 1)) l.
@@ -100,7 +103,9 @@ Theorem C18_exploded_iadd_refuted :
 Proof. exact iadd_invariant_refuted. Qed.
 Print Assumptions C18_exploded_iadd_refuted.
 
-(* After fixes/C18-exploded-list-index-iadd.patch: every index in -len..len-1
+(* About PROPOSED code: [setitem_int_patched] transcribes the patch, which is not
+   in /repo and which no correspondence case exercises.
+   After fixes/C18-exploded-list-index-iadd.patch: every index in -len..len-1
    replaces its item, any other raises, and += keeps the invariant. *)
 Theorem C18_exploded_setitem_patched : forall l i v,
   let j := if i <? 0 then i + len l else i in
@@ -153,7 +158,10 @@ Theorem C18_html_mod_refuted :
 Proof. exact html_mod_refuted. Qed.
 Print Assumptions C18_html_mod_refuted.
 
-(* After fixes/C18-html-mod-conversions.patch the markup is the template with
+(* DEFINITIONAL, and about PROPOSED code: [html_mod_markup_patched] transcribes
+   fixes/C18-html-mod-conversions.patch, which is not in /repo and which no
+   correspondence case exercises.
+   After fixes/C18-html-mod-conversions.patch the markup is the template with
    each conversion's OUTPUT escaped: an ordinary interpolation of the outputs,
    to which every inertness theorem applies, whatever the conversions do. *)
 Theorem C18_html_mod_patched_is_interpolation : forall conv parts specs vals,
@@ -164,7 +172,9 @@ Print Assumptions C18_html_mod_patched_is_interpolation.
 
 (* ---- to_formatted_text / merge_formatted_text ------------------------ *)
 
-(* merge_formatted_text: the conversion of the merged value is the
+(* (C18_merge_concat restates the model's loop as a fold: close to definitional;
+   C18_merge_plain_text is the consequence that matters.)
+   merge_formatted_text: the conversion of the merged value is the
    concatenation of the conversions of its items (a pure function of what the
    items are: converting the same object again gives the same list), *)
 Theorem C18_merge_concat : forall ac items,
@@ -180,15 +190,17 @@ Theorem C18_merge_plain_text : forall ac items r,
 Proof. exact merge_plain_text. Qed.
 Print Assumptions C18_merge_plain_text.
 
-(* A fragment list is the canonical form: converting a conversion result
-   again (any auto_convert) is the identity. *)
-Theorem C18_to_formatted_text_idempotent : forall st ac v r,
-  to_formatted_text st ac v = Ok r ->
-  forall ac', to_formatted_text [] ac' (VList r) = Ok r.
-Proof. exact to_formatted_text_idempotent. Qed.
+(* DEFINITIONAL (holds by unfolding the model; it documents the dispatch, it
+   is not evidence about the code beyond the correspondence): a list of
+   fragments converts to itself, so converting a conversion result again is
+   the identity. *)
+Theorem C18_to_formatted_text_idempotent : forall r ac',
+  to_formatted_text [] ac' (VList r) = Ok r.
+Proof. exact to_formatted_text_list. Qed.
 Print Assumptions C18_to_formatted_text_idempotent.
 
-(* A callable is transparent; the extra style never touches the text. *)
+(* DEFINITIONAL: a callable is transparent (auto_convert is not passed on).  Not
+   definitional: the extra style never touches the text. *)
 Theorem C18_convert_call : forall ac v, convert ac (VCall v) = convert false v.
 Proof. exact convert_call. Qed.
 Print Assumptions C18_convert_call.
@@ -402,6 +414,44 @@ Theorem C18_html_end_tag : forall h nm,
   hrun cfg_now h (fst (render_item (TClose nm) [])) = fst (denote_item (TClose nm) [] h).
 Proof. exact end_tag. Qed.
 Print Assumptions C18_html_end_tag.
+
+(* HTML(markup) -> fragments -> plain text, composed all the way (root wrap,
+   whole template, closing of the root, the final tests of HTML.__init__,
+   fragment_list_to_text): for a balanced template of the grammar and ANY
+   values, if HTML(template with the ESCAPED values) does not raise the fg/bg
+   ValueError (h_verr = false) it succeeds and its plain text is the
+   concatenation of the template's text data with the values as data.  No
+   side condition on '[' any more: the guard of ae5d17b enforces it.
+   ([render tpl vals] is the markup [html_template cfg_now] parses for the
+   template's parts and values.) *)
+Theorem C18_html_plain_text : forall tpl vals hd,
+  tpl_ok tpl vals h_root ->
+  denote tpl vals h_root = Ok hd ->
+  inside hd -> h_stack hd = h_stack h_root -> h_verr hd = false ->
+  exists out, html_parse cfg_now (render tpl vals) = Ok out /\
+              fragment_list_to_text out = denote_text tpl vals.
+Proof. exact html_plain_text. Qed.
+Print Assumptions C18_html_plain_text.
+
+(* The guard: an element whose fg/bg/color datum contains '[' sets the
+   ValueError flag (HTML() raises ValueError), so no style with a special
+   "[...]" token can come from an attribute value. *)
+Theorem C18_html_bracket_guard : forall h nm ats,
+  mem_Z 91 (fst (scan_fg_bg ats [] [])) = true \/ mem_Z 91 (snd (scan_fg_bg ats [] [])) = true ->
+  h_verr (open_element cfg_now h nm ats) = true.
+Proof. exact html_bracket_guard. Qed.
+Print Assumptions C18_html_bracket_guard.
+
+(* Pinned snapshot (finding C18-F13, repaired by ae5d17b): the value
+   "[ZeroWidthEscape]" at an fg hole passed the guard and the text 'x' of its
+   element disappeared from the plain text (it would be written raw). *)
+Theorem C18_html_attr_zero_width_pinned_refuted :
+  exists out,
+    html_template cfg_pinned [S_style_fg_dq; S_x_end_dq_y] [ZWE] = Ok out /\
+    map ftext out = [[120]; [121]] /\ fragment_list_to_text out = [121] /\
+    has_space cfg_pinned ZWE = false.
+Proof. exact html_attr_zero_width_pinned_refuted. Qed.
+Print Assumptions C18_html_attr_zero_width_pinned_refuted.
 
 (* Pinned snapshot: a single-quoted attribute was closed by the value, which added bg. *)
 Theorem C18_html_attr_inert_single_quote_pinned_refuted :
